@@ -332,7 +332,10 @@ class Interp:
                 return self.src.module(sub)
             raise SymRaise(ExcVal(ExtClass("builtins.AttributeError"), (name,)))
         if isinstance(obj, LibRef):
-            return LibRef(obj.path + "." + name)
+            p = obj.path + "." + name
+            if p in ("numpy.nan", "numpy.NaN", "math.nan"):
+                return NAN
+            return LibRef(p)
         if isinstance(obj, ExtClass):
             return LibRef(obj.path + "." + name)
         if isinstance(obj, AbstractObj):
